@@ -97,21 +97,6 @@ def canonBy {α : Type} [DecidableEq α] (le : α → α → Bool) (l : List α)
 /-- `frozenset` of candidates -/
 def canonSet (l : List Cand) : List Cand := canonBy Nat.ble l
 
-def lexLe : List Nat → List Nat → Bool
-  | [], _ => true
-  | _ :: _, [] => false
-  | a :: as, b :: bs => if a < b then true else if b < a then false else lexLe as bs
-
-/-- a total order on rank items (only used to pick the canonical form of a set of rank items) -/
-def RankItem.le : RankItem → RankItem → Bool
-  | .one a, .one b => Nat.ble a b
-  | .one _, .shared _ => true
-  | .shared _, .one _ => false
-  | .shared a, .shared b => lexLe a b
-
-/-- `frozenset` of rank items (RankedToFirstNPreferences keys) -/
-def canonItems (l : List RankItem) : List RankItem := canonBy RankItem.le l
-
 /-! ## util.py -/
 
 /-- number of rank positions visited by `all_rankings`: the loop runs while some ballot is longer than
@@ -153,11 +138,12 @@ def rankedToFirstPreference (p : RProfile) : Dict RankItem :=
 def pyTake {α : Type} (n : Int) (l : List α) : List α :=
   if 0 ≤ n then l.take n.toNat else l.take (l.length - n.natAbs)
 
-/-- `RankedToFirstNPreferences(n_first).convert` (convert.py L282-289) -/
-def rankedToFirstN (n : Int) (p : RProfile) : Dict (List RankItem) :=
+/-- `RankedToFirstNPreferences(n_first).convert` (convert.py L282-295): the approval set of the candidates
+    standing at the first `n_first` places, shared ranks flattened -/
+def rankedToFirstN (n : Int) (p : RProfile) : AProfile :=
   p.foldl (fun out bw => match bw.1 with
     | [] => out
-    | _ :: _ => addTo out (canonItems (pyTake n bw.1)) bw.2) []
+    | _ :: _ => addTo out (canonSet (ballotCands (pyTake n bw.1))) bw.2) []
 
 /-- `RankedToPresenceCounts.convert` (convert.py L301-308) -/
 def rankedToPresenceCounts (p : RProfile) : Dict Cand :=
@@ -454,7 +440,6 @@ def roundedVotes {κ : Type} [DecidableEq κ] (decimals : Nat) (p : Dict κ) : D
 inductive Val where
   | simple (d : Dict Cand)
   | items (d : Dict RankItem)
-  | itemSets (d : Dict (List RankItem))
   | approval (d : AProfile)
   | ranked (d : RProfile)
   | score (d : SProfile)
@@ -506,7 +491,7 @@ mutual
 def applyConv : Conv → Val → Except Err Val
   | .approvalToSimple split, .approval d => (approvalToSimple split d).map Val.simple
   | .rankedToFirstPreference, .ranked d => .ok (.items (rankedToFirstPreference d))
-  | .rankedToFirstN n, .ranked d => .ok (.itemSets (rankedToFirstN n d))
+  | .rankedToFirstN n, .ranked d => .ok (.approval (rankedToFirstN n d))
   | .rankedToPresenceCounts, .ranked d => .ok (.simple (rankedToPresenceCounts d))
   | .rankedToApproval, .ranked d => .ok (.approval (rankedToApproval d))
   | .rankedToPositional sc, .ranked d => (rankedToPositional sc d).map Val.simple
